@@ -122,7 +122,8 @@ pub fn verif_vec8<X>(a: X, b: X, c: X, d: X, e: X, f: X, g: X, h: X) -> (v: Vec<
 pub enum StreamState { Fresh, Active, Done, Closed, Error }
 pub struct AdapterBox { pub g: u8 }
 // what a stream was started with (ghost record written by the `start` stub)
-pub struct Started { pub controls: MaybeControls, pub timeout: Option<Duration>, pub search_opts: Option<SearchOptions>, pub chan: int }
+pub struct Started { pub controls: MaybeControls, pub timeout: Option<Duration>, pub search_opts: Option<SearchOptions>, pub chan: int,
+    pub base: Seq<char>, pub scope: Scope, pub filter: Seq<char>, pub attrs: A }
 pub struct SearchStream {
     pub ldap: Ldap,
     pub rx: Option<ItemReceiver>,
@@ -144,6 +145,14 @@ impl IntoAdapterVec for EntriesOnly {
     fn into(self) -> (r: Vec<AdapterBox>) { unimplemented!() }
 }
 
+// `vec![]` as the (empty) adapter chain: element type fixed for this Verus (recorded substitution)
+pub struct NoAdapters { }
+impl IntoAdapterVec for NoAdapters {
+    open spec fn as_vec(&self) -> Seq<AdapterBox> { Seq::<AdapterBox>::empty() }
+    #[verifier::external_body]
+    fn into(self) -> (r: Vec<AdapterBox>) { unimplemented!() }
+}
+pub fn verif_no_adapters() -> (r: NoAdapters) { NoAdapters { } }
 impl SearchStream {
     #[verifier::external_body]
     pub fn new(ldap: Ldap, adapters: Vec<AdapterBox>) -> (r: SearchStream)
@@ -152,7 +161,7 @@ impl SearchStream {
     #[verifier::external_body]
     pub fn start(&mut self, base: &str, scope: Scope, filter: &str, attrs: A) -> (r: Result<()>)
         ensures final(self).started@ == Some(Started { controls: old(self).ldap.controls, timeout: old(self).ldap.timeout,
-                    search_opts: old(self).ldap.search_opts, chan: old(self).ldap.chan }),
+                    search_opts: old(self).ldap.search_opts, chan: old(self).ldap.chan, base: base@, scope: scope, filter: filter@, attrs: attrs }),
                 final(self).adapters@ == old(self).adapters@,
     { unimplemented!() }
     // next(): yields the prophesied items in order, then Ok(None) (or an error)
@@ -205,8 +214,22 @@ impl Ldap {
 //@ spec
     ensures
         final(self).controls is None && final(self).timeout is None && final(self).search_opts is None, //# C02+C12.search_consumes_all_three_modifiers
-        r matches Ok(s) ==> s.started@ == Some(Started { controls: old(self).controls, timeout: old(self).timeout, search_opts: old(self).search_opts, chan: old(self).chan }), //# C02+C12.stream_handle_receives_the_modifiers
+        r matches Ok(s) ==> s.started@ == Some(Started { controls: old(self).controls, timeout: old(self).timeout, search_opts: old(self).search_opts, chan: old(self).chan,
+            base: base@, scope: scope, filter: filter@, attrs: attrs }), //# C02+C12.stream_handle_receives_the_modifiers_and_the_search_arguments
         r matches Ok(s) ==> s.adapters@ == adapters.as_vec(),
+//@end
+
+//@lift name=Ldap::streaming_search file=src/ldap.rs impl="impl\s+Ldap\s*\{" fn=streaming_search
+//@ sub "<\n        'a,\n        S: AsRef<str> + Send + Sync + 'a,\n        A: AsRef<[S]> + Send + Sync + 'a,\n    >" => ""
+//@ sub "Result<SearchStream<'a, S, A>>" => "Result<SearchStream>"
+//@ sub "vec![]" => "verif_no_adapters()"
+//@ ret r
+//@ spec
+    ensures
+        final(self).controls is None && final(self).timeout is None && final(self).search_opts is None, //# C02+C12.search_consumes_all_three_modifiers
+        r matches Ok(s) ==> s.started@ == Some(Started { controls: old(self).controls, timeout: old(self).timeout, search_opts: old(self).search_opts, chan: old(self).chan,
+            base: base@, scope: scope, filter: filter@, attrs: attrs }), //# C02.streaming_search_is_streaming_search_with_no_adapters_and_the_same_arguments
+        r matches Ok(s) ==> s.adapters@.len() == 0,
 //@end
 
 //@lift name=Ldap::search file=src/ldap.rs impl="impl\s+Ldap\s*\{" fn=search
@@ -307,7 +330,7 @@ impl EntriesOnly {
 //@ spec
     ensures final(self).refs@.len() == 0, //# C10.entries_only_start_forgets_old_referrals
         final(stream).started@ == Some(Started { controls: old(stream).ldap.controls, timeout: old(stream).ldap.timeout,
-                    search_opts: old(stream).ldap.search_opts, chan: old(stream).ldap.chan }),
+                    search_opts: old(stream).ldap.search_opts, chan: old(stream).ldap.chan, base: base@, scope: scope, filter: filter@, attrs: attrs }), //# C02+C10.entries_only_start_passes_the_search_arguments_unchanged
 //@end
 }
 
